@@ -1763,6 +1763,8 @@ STATE_EXTRA = {
     "C01": {"chameleon.zpt.template", "chameleon.utils"},
     # escape sets travel through the expression engines
     "C02": {"chameleon.tales"},
+    # the token of a deferred error carries position and file name
+    "C19": {"chameleon.tokenize"},
 }
 
 
@@ -2200,8 +2202,8 @@ def noneflow_sites(repo, mods=None):
                                     "is None and passed through when it is "
                                     "not" % (e, other[:40])))
             elif isinstance(x, ast.Call) and x.args and isinstance(
-                    x.args[0], ast.Name):
-                e = x.args[0].id
+                    x.args[0], (ast.Name, ast.Attribute)):
+                e = src(x.args[0])
                 for t, v in guards_of(x, f.node):
                     if not isinstance(t, ast.expr):
                         continue
@@ -2213,7 +2215,8 @@ def noneflow_sites(repo, mods=None):
                             pt.comparators[0].value is None:
                         # (the name may be bound anew inside the branch)
                         rebound = any(
-                            isinstance(y, ast.Name) and y.id == e and
+                            isinstance(y, (ast.Name, ast.Attribute)) and
+                            src(y) == e and
                             isinstance(y.ctx, ast.Store) and
                             y.lineno <= x.lineno and y.lineno >= t.lineno
                             for y in ast.walk(f.node))
@@ -2227,6 +2230,24 @@ def noneflow_sites(repo, mods=None):
                                         "when '%s' is None" % (
                                             src(x.func)[:30], e, e)))
     return n, bad
+
+
+def degenerate_and_sites(repo, mods=None):
+    """``E and <constant that is false>`` used as a value: whatever E is, the
+    result is false ('' / None / 0) -- the default idiom is ``E or ''``"""
+    out = []
+    n = 0
+    for q, f in sorted(repo.funcs.items()):
+        if mods is not None and f.module.name not in mods:
+            continue
+        for x in ast.walk(f.node):
+            if isinstance(x, ast.BoolOp):
+                n += 1
+                if isinstance(x.op, ast.And) and isinstance(
+                        x.values[-1], ast.Constant) and \
+                        not x.values[-1].value:
+                    out.append((f, x))
+    return n, out
 
 
 def noneflow_rule(repo, rep, rule=None, mods=None):
@@ -2243,6 +2264,15 @@ def noneflow_rule(repo, rep, rule=None, mods=None):
     rep.check(not bad, rule, "chameleon.*", "%d None idioms (defaults, "
               "pass-through of an absent child) oriented correctly" % n,
               construct="noneflow")
+    nb, deg = degenerate_and_sites(repo, mods)
+    for f, x in deg:
+        rep.bad(rule, f.qualname, "a default is attached with 'or'",
+                construct="and-false-constant:%s" % src(x)[:40],
+                detail="'%s' is false whatever its first operand is"
+                % src(x)[:60], where=where(f, x.lineno))
+    rep.check(not deg, rule, "chameleon.*", "no 'E and <false constant>' "
+              "among %d boolean operations (a default is E or constant)"
+              % nb, construct="and-false-constant")
 
 
 # ---------------------------------------------------------------------------
@@ -2294,3 +2324,44 @@ def innermost_rule(repo, rep, rule, class_qualnames, only=None):
         "are read at their top: the innermost open element / translation / "
         "scope (%d accesses)" % n, construct="innermost", detail="; ".join(off))
     return n
+
+
+# ---------------------------------------------------------------------------
+# documented defaults of the template options (reference.rst / docstring of
+# PageTemplate): an option nobody sets has to behave as documented
+
+
+OPTION_DEFAULTS = {
+    # option: (documented default, what depends on it)
+    "implicit_i18n_translate": (False, "unmarked text is emitted as written, "
+                                "not collapsed into message ids"),
+    "trim_attribute_space": (False, "white space inside tags is kept"),
+    "enable_data_attributes": (False, "data-tal-* attributes are ordinary "
+                               "attributes unless the option is set"),
+    "enable_comment_interpolation": (True, "${...} in comments is "
+                                     "interpolated"),
+    "restricted_namespace": (True, "an undeclared attribute prefix is an "
+                             "error"),
+    "mode": ("xml", "markup is parsed as markup"),
+    "encoding": (None, "render() returns str"),
+    "boolean_attributes": (None, "HTML defaults outside XML mode"),
+}
+
+
+def option_defaults_rule(repo, rep, rule, names):
+    ci = repo.cls("chameleon.zpt.template.PageTemplate")
+    for name in names:
+        want, why = OPTION_DEFAULTS[name]
+        node, owner = repo.class_attr(ci, name)
+        have = "<missing>"
+        ok = False
+        if node is not None:
+            try:
+                have = ast.literal_eval(node)
+                ok = have == want and type(have) is type(want)
+            except ValueError:
+                have = src(node)
+        rep.check(ok, rule, ci.qualname + "." + name, "the documented "
+                  "default of the option %s is %r (%s)" % (name, want, why),
+                  construct="option-default:" + name,
+                  detail="class attribute: %r" % (have,))
